@@ -18,6 +18,7 @@ pub mod c13;
 pub mod c17;
 pub mod c18;
 pub mod c19;
+pub mod c20;
 #[cfg(feature = "sched")]
 pub mod c14;
 #[cfg(feature = "sched")]
@@ -43,6 +44,7 @@ pub fn run(id: &str, o: &Opts, stats: &mut Stats) -> Option<usize> {
         "C17" => c17::run(o, stats),
         "C18" => c18::run(o, stats),
         "C19" => c19::run(o, stats),
+        "C20" => c20::run(o, stats),
         #[cfg(feature = "sched")]
         "C14" => c14::run(o, stats),
         #[cfg(feature = "sched")]
